@@ -207,7 +207,7 @@ theorem cS_ok (lib : Placed p B) (fok : FnsOK p ck B dA fa fns) :
                 (by rw [map_fst_paramGam]; exact fok.wf fd hmem) hfit heW hexb
                 (by cases resb <;> simp only [FaultOK] <;>
                       first | trivial | (simp only [Option.some.injEq, Prod.mk.injEq] at hcw; exact hfl _ hcw.2.1.symm))
-                (Or.inl ⟨(by intro h; cases h), (by intro h; cases h), plain_noTry _ (fok.plain fd hmem)⟩)
+                (Or.inl ⟨(by intro h; cases h), (by intro h; cases h), plain_noTry _ (fok.plain fd hmem), Or.inl HaltW.plain⟩)
               have r03 : Reach (sphinx p) ⟨pc, m⟩ [] ⟨faddr fa fd.name + prologueLen ck, m3⟩ := by
                 have r3 := Reach.of_next (sys := sphinx p) s3
                 have r2' : Reach (sphinx p) ⟨pc + 1, m1⟩ [] ⟨pc + (1 + push.length), m2⟩ := by simpa [Nat.add_assoc] using r2
@@ -532,18 +532,25 @@ theorem cS_ok (lib : Placed p B) (fok : FnsOK p ck B dA fa fns) :
                 hi1 hd hwf.2 (by omega) ho hk hck
                 (hs.sub' (k := k) (by simp only [noTry, Bool.and_eq_true]; exact fun h => h.2)
                   (by simp only [youLevel, Bool.and_eq_true]; exact fun h => h.2) km1 (post_conv (by omega)))
+            -- if no end of the whole list halts, no end of `b` does
+            have fin : (resk = .defeat → lp.vd = true) →
+                (∀ st', Post p B ra lp md Γ envk F D o (pc + ((cS (cxOf p ck B dA) fa lp Γ pc o b).length +
+                  (cS (cxOf p ck B dA) fa lp Γ (pc + (cS (cxOf p ck B dA) fa lp Γ pc o b).length) o k).length)) m resk st' → ¬ Halts (sphinx p) st') →
+                ∀ st1, Post p B ra lp md Γ env1 F D o (pc + (cS (cxOf p ck B dA) fa lp Γ pc o b).length) m .norm st1 → ¬ Halts (sphinx p) st1 := by
+              intro hprem h2 st1 hp1
+              obtain ⟨pc1, m1⟩ := st1
+              simp only [Post] at hp1
+              obtain ⟨hpc1, hi1, km1⟩ := hp1
+              subst hpc1
+              obtain ⟨st', r2, hp2⟩ := (contK m1 hi1 km1).2 hprem
+              exact (r2.exec (h2 st' (by refine post_conv ?_ st' (hp2.rebase km1); omega))).2
             have hsb : Safe p B dA ra lp md sb Γ env1 F D o (pc + (cS (cxOf p ck B dA) fa lp Γ pc o b).length) m .norm b := by
-              rcases hs with ⟨hmd, hvd, h⟩ | ⟨hmd, hvd, h1, hst, h2⟩
-              · left; simp only [noTry, Bool.and_eq_true] at h; exact ⟨hmd, hvd, h.1⟩
+              rcases hs with ⟨hmd, hvd, h, hw⟩ | ⟨hmd, hvd, h1, hst, h2⟩
+              · left; simp only [noTry, Bool.and_eq_true] at h
+                exact ⟨hmd, hvd, h.1, hw.imp id (fun hf => ⟨hf.1, fin (fun _ => hf.1) hf.2⟩)⟩
               · right
                 simp only [youLevel, Bool.and_eq_true] at h1
-                refine ⟨hmd, hvd, h1.1, hst, fun st1 hp1 => ?_⟩
-                obtain ⟨pc1, m1⟩ := st1
-                simp only [Post] at hp1
-                obtain ⟨hpc1, hi1, km1⟩ := hp1
-                subst hpc1
-                obtain ⟨st', r2, hp2⟩ := (contK m1 hi1 km1).2 (nd (exec_no_defeat _ _ _ _ _ _ _ _ _ _ _ _ _ h1.2 hk))
-                exact (r2.exec (h2 st' (by refine post_conv ?_ st' (hp2.rebase km1); omega))).2
+                exact ⟨hmd, hvd, h1.1, hst, fin (nd (exec_no_defeat _ _ _ _ _ _ _ _ _ _ _ _ _ h1.2 hk)) h2⟩
             have hbb := ih F D ra hra lp hlp md sb b Γ env pc o m env1 tr1 .norm hpl1 (by omega) hinv hd hwf.1 (by omega) ho hb1 trivial hsb
             obtain ⟨st1, r1, hp1⟩ := hbb.2 (nd (by decide))
             obtain ⟨pc1, m1⟩ := st1
@@ -592,31 +599,75 @@ theorem cS_ok (lib : Placed p B) (fok : FnsOK p ck B dA fa fns) :
             ⟨dA, v, rfl, rfl, hinv, Keep.refl _ _ _⟩⟩⟩
         · rw [hvd] at hv; cases hv
     | defeatIf c k =>
-      simp only [wfS, Bool.and_eq_true, Bool.not_eq_true'] at hwf
-      obtain ⟨⟨⟨hbc, hdc⟩, hwk⟩, hvF⟩ := hwf
+      simp only [wfS, Bool.and_eq_true] at hwf
+      obtain ⟨⟨hbc, hdc⟩, hwk⟩ := hwf
       simp only [pkS] at hpk
       simp only [cS] at hpl hB hs ⊢
       obtain ⟨hpl1, hpl2⟩ := hpl.append
       rw [List.length_append] at hB hs ⊢
-      have hcd := cD_ok (ck := ck) (dA := dA) lib Γ env F D c pc o m hdc hpl1 (by omega) hinv.fr hinv.vars hbc (by omega) ho
-      cases hev : evalB (256 ^ p.w) (8 * p.w) env c with
-      | none =>
-        simp only [exec, hev, Option.some.injEq, Prod.mk.injEq] at hex
-        obtain ⟨rfl, rfl, rfl⟩ := hex
-        obtain ⟨m', r⟩ := hcd.2.2 hev hck
-        exact fault _ _ _ _ m' _ r
-      | some cv =>
-        cases cv with
-        | true =>
+      cases hv : lp.vd with
+      | false =>
+        rw [hv] at hpl1 hpl2 hB hs
+        have hcd := cD_ok (ck := ck) (dA := dA) lib Γ env F D c pc o m hdc hpl1 (by omega) hinv.fr hinv.vars hbc (by omega) ho
+        cases hev : evalB (256 ^ p.w) (8 * p.w) env c with
+        | none =>
           simp only [exec, hev, Option.some.injEq, Prod.mk.injEq] at hex
           obtain ⟨rfl, rfl, rfl⟩ := hex
-          exact ⟨fun _ _ => hcd.2.1 hev, fun h => absurd (h rfl) (by rw [hvF]; simp)⟩
-        | false =>
-          simp only [exec, hev] at hex
-          obtain ⟨m1, r1, k1⟩ := hcd.1 hev
-          have hkk := ih F D ra hra lp hlp md sb k Γ env _ o m1 env' tr res hpl2 (by omega) (hinv.keep k1 ho) hd hwk (by omega) ho hex hck
-            (hs.sub (by simp [noTry]) (by simp [youLevel]) (k1.mono (by omega)) (post_conv (by omega)))
-          simpa using Concl.pre r1 (k1.mono (by omega)) hkk (post_conv (by omega))
+          obtain ⟨m', r⟩ := hcd.2.2 hev hck
+          exact fault _ _ _ _ m' _ r
+        | some cv =>
+          cases cv with
+          | true =>
+            simp only [exec, hev, Option.some.injEq, Prod.mk.injEq] at hex
+            obtain ⟨rfl, rfl, rfl⟩ := hex
+            exact ⟨fun _ _ => hcd.2.1 hev, fun h => absurd (hv.symm.trans (h rfl)) (by decide)⟩
+          | false =>
+            simp only [exec, hev] at hex
+            obtain ⟨m1, r1, k1⟩ := hcd.1 hev
+            have hkk := ih F D ra hra lp hlp md sb k Γ env _ o m1 env' tr res hpl2 (by omega) (hinv.keep k1 ho) hd hwk (by omega) ho hex hck
+              (hs.sub (by simp [noTry]) (by simp [youLevel]) (k1.mono (by omega)) (post_conv (by omega)))
+            simpa using Concl.pre r1 (k1.mono (by omega)) hkk (post_conv (by omega))
+      | true =>
+        -- inside a `try/stop` body: each conditional halt is preceded by `j [defeat]`
+        rw [hv] at hpl1 hpl2 hB hs
+        rcases hs with ⟨hmd, hvd, hnt, hwld⟩ | ⟨_, hvd, _⟩
+        · obtain ⟨v, rfl⟩ := hvd hv
+          obtain ⟨e1, e2, e3, e4, _, e6⟩ := hinv.dreg dA v rfl
+          have hdw : DWord p dA v m F := ⟨by omega, by omega, by omega, e4, e6⟩
+          have hpost : ∀ m', Keep p.w m m' (F - o) → Post p B ra lp (.stop dA v) Γ env F D o
+              (pc + ((cD (cxOf p ck B dA) true Γ pc o c).length + (cS (cxOf p ck B dA) fa lp Γ (pc + (cD (cxOf p ck B dA) true Γ pc o c).length) o k).length))
+              m .defeat ⟨v, m'⟩ :=
+            fun m' k' => ⟨dA, v, rfl, rfl, hinv.keep k' ho, (k'.mono (by omega)).kb⟩
+          cases hev : evalB (256 ^ p.w) (8 * p.w) env c with
+          | none =>
+            simp only [exec, hev, Option.some.injEq, Prod.mk.injEq] at hex
+            obtain ⟨rfl, rfl, rfl⟩ := hex
+            have hcd := cD_ok_vd (ck := ck) (dA := dA) lib Γ env F D v c pc o m hdc hpl1 (by omega) hinv.fr hinv.vars hbc (by omega) ho hdw
+              (Or.inr (fun m' _ => ⟨fun h => (by rw [hev] at h; cases h), fun h => (by rw [hev] at h; cases h)⟩))
+            obtain ⟨m', r⟩ := hcd.2.2 hev hck
+            exact fault _ _ _ _ m' _ r
+          | some cv =>
+            cases cv with
+            | true =>
+              simp only [exec, hev, Option.some.injEq, Prod.mk.injEq] at hex
+              obtain ⟨rfl, rfl, rfl⟩ := hex
+              have hcd := cD_ok_vd (ck := ck) (dA := dA) lib Γ env F D v c pc o m hdc hpl1 (by omega) hinv.fr hinv.vars hbc (by omega) ho hdw
+                (hwld.imp (fun h => h dA v rfl) (fun hf m' k' => ⟨fun h => (by rw [hev] at h; cases h), fun _ => hf.2 _ (hpost m' k')⟩))
+              obtain ⟨m', r, k'⟩ := hcd.2.1 hev
+              exact ⟨fun _ hf => absurd (hv.symm.trans hf) (by decide), fun _ => ⟨⟨v, m'⟩, r, hpost m' k'⟩⟩
+            | false =>
+              simp only [exec, hev] at hex
+              have hkk : ∀ m1, Keep p.w m m1 (F - o) → _ := fun m1 k1 =>
+                ih F D ra hra lp hlp (.stop dA v) sb k Γ env _ o m1 env' tr res hpl2 (by omega) (hinv.keep k1 ho) hd hwk (by omega) ho hex hck
+                  (Safe.sub (Or.inl ⟨hmd, hvd, hnt, hwld⟩) (by simp [noTry]) (by simp [youLevel]) (k1.mono (by omega)) (post_conv (by omega)))
+              have hcd := cD_ok_vd (ck := ck) (dA := dA) lib Γ env F D v c pc o m hdc hpl1 (by omega) hinv.fr hinv.vars hbc (by omega) ho hdw
+                (hwld.imp (fun h => h dA v rfl) (fun hf m' k' => ⟨fun _ => (by
+                  obtain ⟨st', r2, hp2⟩ := (hkk m' k').2 (fun _ => hv)
+                  exact (r2.exec (hf.2 st' (post_conv (by omega) st' (hp2.rebase (k'.mono (by omega)).kb)))).2),
+                  fun h => (by rw [hev] at h; cases h)⟩))
+              obtain ⟨m1, r1, k1⟩ := hcd.1 hev
+              simpa using Concl.pre r1 (k1.mono (by omega)) (hkk m1 k1) (post_conv (by omega))
+        · rw [hvd] at hv; cases hv
     | ifb c t e k =>
       simp only [wfS, Bool.and_eq_true] at hwf
       obtain ⟨⟨⟨hbc, hwt⟩, hwe⟩, hwk⟩ := hwf
@@ -692,20 +743,27 @@ theorem cS_ok (lib : Placed p B) (fok : FnsOK p ck B dA fa fns) :
                 fun m1 hi1 km1 => ih F D ra hra lp hlp md sb k Γ env1 _ o m1 envk trk resk hplK (by omega) hi1 hd hwk (by omega) ho hk hck
                   (hs.sub' (k := k) (by simp only [noTry, Bool.and_eq_true]; exact fun h => h.2)
                     (by simp only [youLevel, Bool.and_eq_true]; exact fun h => h.2) km1 (post_conv rfl))
+              -- if no end of the whole list halts, no end of the branch does
+              have fin : (resk = .defeat → lp.vd = true) →
+                  (∀ st', Post p B ra lp md Γ envk F D o
+                    (pc + nC + nT + 2 + nE + (cS (cxOf p ck B dA) fa lp Γ (pc + nC + nT + 2 + nE) o k).length) m resk st' → ¬ Halts (sphinx p) st') →
+                  ∀ st1, Post p B ra lp md Γ env1 F D o (pcX + nX) m0 .norm st1 → ¬ Halts (sphinx p) st1 := by
+                intro hprem h2 st1 hp1
+                obtain ⟨pc1, m1⟩ := st1
+                simp only [Post] at hp1
+                obtain ⟨hpc1, hi1, km1⟩ := hp1
+                subst hpc1
+                have km := km0.kb.trans' km1
+                obtain ⟨st', r2, hp2⟩ := (contK m1 hi1 km).2 hprem
+                exact (((gX m1).trans r2).exec (h2 st' (hp2.rebase km))).2
               have hsX : Safe p B dA ra lp md sb Γ env1 F D o (pcX + nX) m0 .norm X := by
-                rcases hs with ⟨hmd, hvd, h⟩ | ⟨hmd, hvd, h1, hst, h2⟩
-                · left; exact ⟨hmd, hvd, hntX (by simpa [cS] using h)⟩
+                rcases hs with ⟨hmd, hvd, h, hw⟩ | ⟨hmd, hvd, h1, hst, h2⟩
+                · left; exact ⟨hmd, hvd, hntX (by simpa [cS] using h), hw.imp id (fun hf => ⟨hf.1, fin (fun _ => hf.1) hf.2⟩)⟩
                 · right
                   have h1y : youLevel sb (.ifb c t e k) = true := h1
                   simp only [youLevel, Bool.and_eq_true] at h1
-                  refine ⟨hmd, hvd, hylX h1y, fun e => by rw [km0.size]; exact hst e, fun st1 hp1 => ?_⟩
-                  obtain ⟨pc1, m1⟩ := st1
-                  simp only [Post] at hp1
-                  obtain ⟨hpc1, hi1, km1⟩ := hp1
-                  subst hpc1
-                  have km := km0.kb.trans' km1
-                  obtain ⟨st', r2, hp2⟩ := (contK m1 hi1 km).2 (nd (exec_no_defeat _ _ _ _ _ _ _ _ _ _ _ _ _ h1.2 hk))
-                  exact (((gX m1).trans r2).exec (h2 st' (hp2.rebase km))).2
+                  exact ⟨hmd, hvd, hylX h1y, fun e => by rw [km0.size]; exact hst e,
+                    fin (nd (exec_no_defeat _ _ _ _ _ _ _ _ _ _ _ _ _ h1.2 hk)) h2⟩
               have hxx := ih F D ra hra lp hlp md sb X Γ env pcX o m0 env1 tr1 .norm hplX (by rw [hlenX]; omega) hinv0 hd hwX hpkX ho hb1 trivial
                 (by rw [hlenX]; exact hsX)
               rw [hlenX] at hxx
@@ -866,8 +924,17 @@ theorem cS_ok (lib : Placed p B) (fok : FnsOK p ck B dA fa fns) :
                       rw [etot] at this; exact this
                     have hsc : ∀ m1, Keep p.w m m1 (md.kb F p.w) → Safe p B dA ra lp md sb Γ env2 F D o (pc + nC + nT + nE) m1 .norm cont := by
                       intro m1 km1
-                      rcases hs0 with ⟨hmd, hvd, h⟩ | ⟨hmd, hvd, h1, hst, h2⟩
-                      · left; simp only [noTry, Bool.and_eq_true] at h; exact ⟨hmd, hvd, h.1.2⟩
+                      rcases hs0 with ⟨hmd, hvd, h, hw⟩ | ⟨hmd, hvd, h1, hst, h2⟩
+                      · left; simp only [noTry, Bool.and_eq_true] at h
+                        refine ⟨hmd, hvd, h.1.2, hw.imp id (fun hf => ⟨hf.1, fun st2 hp2 => ?_⟩)⟩
+                        obtain ⟨pc2, m2⟩ := st2
+                        simp only [Post] at hp2
+                        obtain ⟨hpc2, hi2, k12⟩ := hp2
+                        subst hpc2
+                        have km2 := km1.trans' k12
+                        have g := goto_reach lib (pc + nC + nT + nE) pc m2 hplG (by omega)
+                        obtain ⟨st', r3, hp3⟩ := (L m2 hi2 km2).2 (fun _ => hf.1)
+                        exact ((g.trans r3).exec (hf.2 st' (hp3.rebase km2))).2
                       · right
                         have h1' := h1
                         simp only [youLevel, Bool.and_eq_true] at h1
@@ -881,8 +948,26 @@ theorem cS_ok (lib : Placed p B) (fok : FnsOK p ck B dA fa fns) :
                         obtain ⟨st', r3, hp3⟩ := (L m2 hi2 km2).2 (nd (exec_no_defeat _ _ _ _ _ _ _ _ _ _ _ _ _ h1' hb3))
                         exact ((g.trans r3).exec (h2 st' (hp3.rebase km2))).2
                     have hsbd : Safe p B dA ra ⟨pc + nC + nT, pc + nC + nT + nE + 2, lp.vd⟩ md sb Γ env1 F D o (pc + nC + nT) m0 res1 body := by
-                      rcases hs0 with ⟨hmd, hvd, h⟩ | ⟨hmd, hvd, h1, hst, h2⟩
-                      · left; simp only [noTry, Bool.and_eq_true] at h; exact ⟨hmd, hvd, h.1.1⟩
+                      rcases hs0 with ⟨hmd, hvd, h, hw⟩ | ⟨hmd, hvd, h1, hst, h2⟩
+                      · left; simp only [noTry, Bool.and_eq_true] at h
+                        refine ⟨hmd, hvd, h.1.1, hw.imp id (fun hf => ⟨hf.1, fun st1 hp1 => ?_⟩)⟩
+                        obtain ⟨pc1, m1⟩ := st1
+                        obtain ⟨hpc1, hi1, k01⟩ := postNC m0 _ hp1
+                        dsimp only at hpc1 hi1 k01
+                        subst hpc1
+                        have km1 := km0.kb.trans' k01
+                        have hcc := ih F D ra hra lp hlp md sb cont Γ env1 (pc + nC + nT) o m1 env2 tr2 .norm hplE (by rw [hlenE]; omega) hi1 hd hwc (by omega) ho hb2 trivial
+                          (by rw [hlenE]; exact hsc m1 km1)
+                        rw [hlenE] at hcc
+                        obtain ⟨st2, r2, hp2⟩ := hcc.2 (nd (by decide))
+                        obtain ⟨pc2, m2⟩ := st2
+                        simp only [Post] at hp2
+                        obtain ⟨hpc2, hi2, k12⟩ := hp2
+                        subst hpc2
+                        have km2 := km1.trans' k12
+                        have g := goto_reach lib (pc + nC + nT + nE) pc m2 hplG (by omega)
+                        obtain ⟨st', r3, hp3⟩ := (L m2 hi2 km2).2 (fun _ => hf.1)
+                        exact ((r2.trans (g.trans r3)).exec (hf.2 st' (hp3.rebase km2))).2
                       · right
                         have h1' := h1
                         simp only [youLevel, Bool.and_eq_true] at h1
@@ -932,8 +1017,19 @@ theorem cS_ok (lib : Placed p B) (fok : FnsOK p ck B dA fa fns) :
                     hs.sub' (by simp only [noTry, Bool.and_eq_true]; exact fun h => h.1.2)
                       (by simp only [youLevel, Bool.and_eq_true]; exact fun h => h.1.2) km1 (convN env2 res2 hn2 _ _)
                   have hsbd : Safe p B dA ra ⟨pc + nC + nT, pc + nC + nT + nE + 2, lp.vd⟩ md sb Γ env1 F D o (pc + nC + nT) m0 res1 body := by
-                    rcases hs with ⟨hmd, hvd, h⟩ | ⟨hmd, hvd, h1, hst, h2⟩
-                    · left; simp only [noTry, Bool.and_eq_true] at h; exact ⟨hmd, hvd, h.1.1⟩
+                    rcases hs with ⟨hmd, hvd, h, hw⟩ | ⟨hmd, hvd, h1, hst, h2⟩
+                    · left; simp only [noTry, Bool.and_eq_true] at h
+                      refine ⟨hmd, hvd, h.1.1, hw.imp id (fun hf => ⟨hf.1, fun st1 hp1 => ?_⟩)⟩
+                      obtain ⟨pc1, m1⟩ := st1
+                      obtain ⟨hpc1, hi1, k01⟩ := postNC m0 _ hp1
+                      dsimp only at hpc1 hi1 k01
+                      subst hpc1
+                      have km1 := km0.kb.trans' k01
+                      have hcc := ih F D ra hra lp hlp md sb cont Γ env1 (pc + nC + nT) o m1 env2 tr2 res2 hplE (by rw [hlenE]; omega) hi1 hd hwc (by omega) ho hb2 hck
+                        (by rw [hlenE]; exact hsc m1 km1)
+                      rw [hlenE] at hcc
+                      obtain ⟨st2, r2, hp2⟩ := hcc.2 (fun _ => hf.1)
+                      exact (r2.exec (hf.2 st2 (convN env2 res2 hn2 _ _ st2 (hp2.rebase km1)))).2
                     · right
                       simp only [youLevel, Bool.and_eq_true] at h1
                       refine ⟨hmd, hvd, h1.1.1, fun e => by rw [km0.size]; exact hst e, fun st1 hp1 => ?_⟩
@@ -979,8 +1075,16 @@ theorem cS_ok (lib : Placed p B) (fok : FnsOK p ck B dA fa fns) :
                       (hs.sub' (by simp only [noTry, Bool.and_eq_true]; exact fun h => h.2)
                         (by simp only [youLevel, Bool.and_eq_true]; exact fun h => h.2) km1 (post_conv rfl))
                   have hsbd : Safe p B dA ra ⟨pc + nC + nT, pc + nC + nT + nE + 2, lp.vd⟩ md sb Γ env1 F D o (pc + nC + nT) m0 .brk body := by
-                    rcases hs with ⟨hmd, hvd, h⟩ | ⟨hmd, hvd, h1, hst, h2⟩
-                    · left; simp only [noTry, Bool.and_eq_true] at h; exact ⟨hmd, hvd, h.1.1⟩
+                    rcases hs with ⟨hmd, hvd, h, hw⟩ | ⟨hmd, hvd, h1, hst, h2⟩
+                    · left; simp only [noTry, Bool.and_eq_true] at h
+                      refine ⟨hmd, hvd, h.1.1, hw.imp id (fun hf => ⟨hf.1, fun st1 hp1 => ?_⟩)⟩
+                      obtain ⟨pc1, m1⟩ := st1
+                      simp only [Post] at hp1
+                      obtain ⟨hpc1, hi1, k01⟩ := hp1
+                      subst hpc1
+                      have km1 := km0.kb.trans' k01
+                      obtain ⟨st', r2, hp2⟩ := (contK m1 hi1 km1).2 (fun _ => hf.1)
+                      exact (r2.exec (hf.2 st' (hp2.rebase km1))).2
                     · right
                       have h1' := h1
                       simp only [youLevel, Bool.and_eq_true] at h1
@@ -1008,8 +1112,9 @@ theorem cS_ok (lib : Placed p B) (fok : FnsOK p ck B dA fa fns) :
                 have hnn : res1 ≠ .norm := fun h => hn1 (Or.inl h)
                 have hnc : res1 ≠ .cnt := fun h => hn1 (Or.inr h)
                 have hsb1 : Safe p B dA ra ⟨pc + nC + nT, pc + nC + nT + nE + 2, lp.vd⟩ md sb Γ env1 F D o (pc + nC + nT) m0 res1 body := by
-                  rcases hs with ⟨hmd, hvd, h⟩ | ⟨hmd, hvd, h1, hst, h2⟩
-                  · left; simp only [noTry, Bool.and_eq_true] at h; exact ⟨hmd, hvd, h.1.1⟩
+                  rcases hs with ⟨hmd, hvd, h, hw⟩ | ⟨hmd, hvd, h1, hst, h2⟩
+                  · left; simp only [noTry, Bool.and_eq_true] at h
+                    exact ⟨hmd, hvd, h.1.1, hw.imp id (fun hf => ⟨hf.1, fun st1 hp1 => hf.2 st1 (convB env1 res1 hnn hnc hbk _ _ m st1 (hp1.rebase km0.kb))⟩)⟩
                   · right
                     simp only [youLevel, Bool.and_eq_true] at h1
                     exact ⟨hmd, hvd, h1.1.1, fun e => by rw [km0.size]; exact hst e, fun st1 hp1 => h2 st1 (convB env1 res1 hnn hnc hbk _ _ m st1 (hp1.rebase km0.kb))⟩
@@ -1020,7 +1125,7 @@ theorem cS_ok (lib : Placed p B) (fok : FnsOK p ck B dA fa fns) :
                 obtain ⟨st', r2, hp⟩ := hbb.2 hn'
                 exact ⟨st', by simpa using r0.trans r2, convB env1 res1 hnn hnc hbk _ _ m st' (hp.rebase km0.kb)⟩
     | tryUndo body handler k =>
-      rcases hs with ⟨_, _, h⟩ | ⟨hmd, hvd, h1, hst, h2⟩
+      rcases hs with ⟨_, _, h, _⟩ | ⟨hmd, hvd, h1, hst, h2⟩
       · simp [noTry] at h
       · subst hmd
         simp only [youLevel, Bool.and_eq_true] at h1
@@ -1076,7 +1181,7 @@ theorem cS_ok (lib : Placed p B) (fok : FnsOK p ck B dA fa fns) :
             subst hdft
             simp only [if_true] at hex
             have hbb := ih F D ra hra lp hlp .plain sb body Γ env (pc + 1) o m env1 tr1 .defeat hplB (by rw [hlenB]; omega) (hinv.toMd (by intro a v h; cases h)) hd hwb (by omega) ho hb1
-              trivial (Or.inl ⟨(by intro h; cases h), (by intro h; rw [hvd] at h; cases h), hntb⟩)
+              trivial (Or.inl ⟨(by intro h; cases h), (by intro h; rw [hvd] at h; cases h), hntb, Or.inl HaltW.plain⟩)
             have jt : Reach (sphinx p) ⟨pc, m⟩ [] ⟨pc + 1 + nB + 2, m⟩ := Reach.jump_taken' (sys := sphinx p) s0 (hbb.1 rfl hvd)
             cases hh2 : exec (256 ^ p.w) (8 * p.w) fns p.w f D o env handler with
             | none => simp [hh2] at hex
@@ -1094,7 +1199,7 @@ theorem cS_ok (lib : Placed p B) (fok : FnsOK p ck B dA fa fns) :
                   simp only [hk, Option.bind_some, Option.pure_def, Option.some.injEq, Prod.mk.injEq] at hex
                   obtain ⟨rfl, rfl, rfl⟩ := hex
                   have hhh := ih F D ra hra lp hlp .plain sb handler Γ env (pc + 1 + nB + 2) o m env2 tr2 .norm hplH (by rw [hlenH]; omega) (hinv.toMd (by intro a v h; cases h)) hd hwh (by omega) ho hh2
-                    trivial (Or.inl ⟨(by intro h; cases h), (by intro h; rw [hvd] at h; cases h), plain_noTry _ hplh⟩)
+                    trivial (Or.inl ⟨(by intro h; cases h), (by intro h; rw [hvd] at h; cases h), plain_noTry _ hplh, Or.inl HaltW.plain⟩)
                   rw [hlenH] at hhh
                   obtain ⟨st2, r2, hp2⟩ := hhh.2 (nd (by decide))
                   have hp2 := hp2.toYou
@@ -1107,7 +1212,7 @@ theorem cS_ok (lib : Placed p B) (fok : FnsOK p ck B dA fa fns) :
               · simp only [hn2, if_false, Option.pure_def, Option.some.injEq, Prod.mk.injEq] at hex
                 obtain ⟨rfl, rfl, rfl⟩ := hex
                 have hhh := ih F D ra hra lp hlp .plain sb handler Γ env (pc + 1 + nB + 2) o m env2 tr2 res2 hplH (by rw [hlenH]; omega) (hinv.toMd (by intro a v h; cases h)) hd hwh (by omega) ho hh2
-                  hck (Or.inl ⟨(by intro h; cases h), (by intro h; rw [hvd] at h; cases h), plain_noTry _ hplh⟩)
+                  hck (Or.inl ⟨(by intro h; cases h), (by intro h; rw [hvd] at h; cases h), plain_noTry _ hplh, Or.inl HaltW.plain⟩)
                 simpa using Concl.pre jt (Keep.refl _ _ _) hhh.toYou (convN env2 res2 hn2 _ _)
           · simp only [hdft, if_false] at hex
             have hbb := ih F D ra hra lp hlp .plain sb body Γ env (pc + 1) o m env1 tr1 res1 hplB (by rw [hlenB]; omega) (hinv.toMd (by intro a v h; cases h)) hd hwb (by omega) ho hb1
@@ -1120,7 +1225,7 @@ theorem cS_ok (lib : Placed p B) (fok : FnsOK p ck B dA fa fns) :
                 obtain ⟨env3, tr3, res3⟩ := rk
                 simp only [hk, Option.bind_some, Option.pure_def, Option.some.injEq, Prod.mk.injEq] at hex
                 obtain ⟨rfl, rfl, rfl⟩ := hex
-                have hbb' := hbb trivial (Or.inl ⟨(by intro h; cases h), (by intro h; rw [hvd] at h; cases h), hntb⟩)
+                have hbb' := hbb trivial (Or.inl ⟨(by intro h; cases h), (by intro h; rw [hvd] at h; cases h), hntb, Or.inl HaltW.plain⟩)
                 rw [hlenB] at hbb'
                 obtain ⟨st1, r1, hp1⟩ := hbb'.2 (nd (by decide))
                 have hp1 := hp1.toYou
@@ -1138,7 +1243,7 @@ theorem cS_ok (lib : Placed p B) (fok : FnsOK p ck B dA fa fns) :
                 exact ⟨fun hd' => absurd hd' hnd3, fun _ => ⟨st', by simpa using jn.trans rbody, hp3.rebase km1⟩⟩
             · simp only [hn, if_false, Option.pure_def, Option.some.injEq, Prod.mk.injEq] at hex
               obtain ⟨rfl, rfl, rfl⟩ := hex
-              have hbb' := hbb hck (Or.inl ⟨(by intro h; cases h), (by intro h; rw [hvd] at h; cases h), hntb⟩)
+              have hbb' := hbb hck (Or.inl ⟨(by intro h; cases h), (by intro h; rw [hvd] at h; cases h), hntb, Or.inl HaltW.plain⟩)
               obtain ⟨st1, r1, hp1⟩ := hbb'.2 (nd hdft)
               have hp1 := hp1.toYou
               have hp1' := convN env1 res1 hn _ (pc + 1 + nB + 2 + nH + (cS (cxOf p ck B dA) fa lp Γ (pc + 1 + nB + 2 + nH) o k).length) st1 hp1
